@@ -73,8 +73,9 @@ PLANS['C12'] = dict(level='exploration',
           R('owner', 'asan', dict(random=400000), dict(random=4000000)),
           R('hist', 'asan', dict(histories=150000), dict(histories=6000000), dict(ownership_transfers_checked=10000)),
           R('hist', 'fast', dict(histories=300000), dict(histories=12000000)),
-          R('fault', 'fast', dict(inputs=100000), dict(inputs=1200000), dict(faulted_addbase=5000, faulted_removebase=5000))],
-    rule="URIs of all host kinds and component presence combinations; make-owner or normalise with any non-zero mask while the source text is mapped read-only; then the source is overwritten and unmapped / freed and the object read again; in histories non-owner results whose text lives in other objects are made owner and their lenders released; const arguments deep-snapshotted around every call; make-owner / normalise also with an injected allocation failure (source text read-only, caller text must not reach free, retry must leave an independent object); the allocation-failure enumerator over add-base / remove-base with the read-only inputs under a manager of their own (a release of one of their blocks is reported); distinct = distinct (input, mask, operation)",
+          R('fault', 'fast', dict(inputs=100000), dict(inputs=1200000), dict(faulted_addbase=5000, faulted_removebase=5000)),
+          R('tostring', 'fast', dict(uris=30000), dict(uris=600000), dict(argument_unchanged_after_recomposition=10000))],
+    rule="URIs of all host kinds and component presence combinations; make-owner or normalise with any non-zero mask while the source text is mapped read-only; then the source is overwritten and unmapped / freed and the object read again; in histories non-owner results whose text lives in other objects are made owner and their lenders released; const arguments deep-snapshotted around every call; make-owner / normalise also with an injected allocation failure (source text read-only, caller text must not reach free, retry must leave an independent object); the allocation-failure enumerator over add-base / remove-base with the read-only inputs under a manager of their own (a release of one of their blocks is reported); the recomposition monitor with a deep byte snapshot of its argument around all size queries and writes; distinct = distinct (input, mask, operation)",
     assumptions=A_MODELS + A_MEM)
 PLANS['C13'] = dict(level='exploration',
     runs=[R('hist', 'fast', dict(histories=500000), dict(histories=16000000), dict(ledger_requests=100000)),
